@@ -247,6 +247,36 @@ def run(ck):
                 nsch = len(ev)
                 ck.check(nsch == 1 if full else nsch <= 1, "C06.R4", "continued run: scheduler advanced exactly once in epoch %d [%s]" % (3 + k_, path_tag(p)), fsite,
                          "with starting_epoch=3, scheduler.step() runs %d times in epoch %d (the scheduler built by this fit starts at its own step 0 whatever the epoch numbering)" % (nsch, 3 + k_))
+    # ------------------------------------------------------------------ R3 (second run): the gradients reach the parameters the model has now
+    for cls in STATES:
+        inst = "fit/%s after reinitialize_parameters() and an earlier fit" % cls
+        with ck.guard("C06.R3", inst, fsite):
+            def thf2(it, cls=cls):
+                s = make_state(it, cls)
+                kw = {"epochs": VConst(1)}
+                if cls != "PositiveWaveFunction":
+                    kw["input_bases"] = api.bases_arr(it, "input_bases", "N")
+                call(it, s, "fit", tens(it, "data", ("N", "nv")), **kw)
+                call(it, s, "reinitialize_parameters")
+                n0 = len(it.effects)
+                call(it, s, "fit", tens(it, "data", ("N", "nv")), **kw)
+                return s, n0
+
+            for p in [q for q in paths_of(prog, thf2, max_paths=100, sticky=True, stubs={"NeuralStateBase.compute_batch_gradients": stub_grad_lists}) if q.outcome == "return"][:8]:
+                it = p.interp
+                s, n0 = p.value
+                cur = {}
+                for net in state_networks(it, s):
+                    for pn_, q in module_params(it, it.get_attr(s, net, None)):
+                        cur[id(q.obj)] = (net, pn_, q)
+                gw = [e for e in it.effects[n0:] if e.kind == "grad" and "zero_grad" not in str(e.detail)]
+                if not gw:
+                    ck.undecided("C06.R3", inst + " [%s]" % path_tag(p), fsite, "no gradient assignment was followed in the second fit")
+                    continue
+                orphan = [e for e in gw if id(e.obj) not in cur]
+                ck.check(not orphan, "C06.R3", inst + ":gradients are assigned to the current parameters [%s]" % path_tag(p), orphan[0].site if orphan else fsite,
+                         "in a fit after reinitialize_parameters() the gradients are written onto tensors that are no longer parameters of the model (a layout kept from the earlier run): the optimizer "
+                         "finds no gradient on the parameters it was built over and moves nothing", key="C06.R3|fit|orphaned gradients")
     # ------------------------------------------------------------------ R3 pairing and optimizer construction (effect facet)
     for cls in STATES:
         inst = "fit/" + cls
@@ -292,17 +322,22 @@ def run(ck):
                     ck.check(num_term(k.get("lr")) == T.sym("lr"), "C06.R3", inst + ":learning rate forwarded", fsite, "the optimizer's lr is %r" % (num_term(k.get("lr")),))
                 vt = [c for c in p.calls if c[0].endswith("vector_to_grads")]
                 ck.check(len(vt) == 2 * 2 * len(nets), "C06.R3", inst + ":one assignment per network and batch", fsite, "vector_to_grads called %d times for %d networks in the 4 analysed batch iterations" % (len(vt), len(nets)))
-                for c in vt[: len(nets)]:
-                    env = c[5]
-                    vec = env.get("vec")
-                    prm = it.concrete_items(env.get("parameters"))
-                    net = None
-                    if isinstance(vec, VTens) and vec.term is not None and vec.term.single_atom() is not None:
-                        nm = vec.term.single_atom().name
-                        net = nm[2:].split("@")[0] if nm.startswith("G_") else None
-                    want = [q.obj for _, q in module_params(it, it.get_attr(s, net, None))] if net in nets else None
-                    ck.check(want is not None and prm is not None and [x.obj for x in prm] == want, "C06.R3", inst + ":gradient %s -> parameters of %s" % (net, net), fsite,
-                             "gradient vector of network %s is written into the parameters of another network" % net)
+                # by effect: after the analysed batches the .grad of every parameter of a network is a piece of that network's own
+                # gradient vector (however the assignment is organised: per call, through a prepared layout, in a helper)
+                for net in nets:
+                    srcs, missing = set(), []
+                    for pn_, q in module_params(it, it.get_attr(s, net, None)):
+                        g_ = q.obj.grad
+                        if isinstance(g_, VTens) and g_.term is not None:
+                            srcs |= {x[2:].split("@")[0] for x in g_.term.syms() if x.startswith("G_")}
+                        else:
+                            missing.append(pn_)
+                    if missing:
+                        ck.check(None if srcs <= {net} else False, "C06.R3", inst + ":gradient %s -> parameters of %s" % (net, net), fsite,
+                                 "the gradients of %s.%s are not followed by the analyser" % (net, ", ".join(missing)))
+                    else:
+                        ck.check(srcs == {net}, "C06.R3", inst + ":gradient %s -> parameters of %s" % (net, net), fsite,
+                                 "the parameters of network %s receive their gradients from the gradient vector of %s" % (net, sorted(srcs) or "no network"))
                 # timeline order inside one batch iteration
                 tl = [(k_, n_) for k_, n_, _ in it.timeline if n_ in ("optimizer.zero_grad", "optimizer.step", "NeuralStateBase.compute_batch_gradients", "scheduler.step") or n_.endswith("vector_to_grads")]
                 names = ["cbg" if n.endswith("compute_batch_gradients") else ("vtg" if n.endswith("vector_to_grads") else n) for _, n in tl]
